@@ -211,7 +211,10 @@ theorem evalMon_leftAsset {env : VEnv} {e : Expr} {a s : Asset} {n : Int} (h : e
 def Stmt.frag : Stmt → Bool
   | .send (.mon e) (.src s) d => e.noPortion && s.frag && d.frag
   | .send (.all ae) (.src s) d => ae.noPortion && s.frag && d.frag
-  | .send _ (.allot _) _ => false
+  | .send (.mon e) (.allot items) d =>
+    e.noPortion && items.all (fun it => it.2.frag) && decide (items.length < 18446744073709551616) &&
+      (items.map (·.1)).all specPos && d.frag
+  | .send (.all _) (.allot _) _ => false
   | .saveMon e acc => e.noPortion && acc.noPortion
   | .saveAll ae acc => ae.noPortion && acc.noPortion
   | .setTxMeta _ v => v.noPortion
@@ -293,6 +296,124 @@ theorem setKey_map (l : List (String × Val)) (k : String) (v : Val) :
 theorem exec_pushAsset_mon {V : List BVal} {a : Addr} {s : Asset} {n : Int} (h : V[a]? = some (.mon s n)) (m : Machine) :
     exec V [.apush a, .asset] m = .ok (m.push (.asset s)) := by
   simp [exec, step, h, popValue, Machine.push]
+
+/-- the code of `BUMP n; …`: the constant `n`, `OP_BUMP`, the rest -/
+theorem emitSeq_bump_cons {st st' : CState} {n : Int} {es : List Emit} {c : Code} (h : emitSeq st (.bump n :: es) = .ok (c, st')) :
+    ∃ a st1 c', allocRes st (.const (.num n)) = .ok (a, st1) ∧ emitSeq st1 es = .ok (c', st') ∧ c = .apush a :: .bump :: c' := by
+  simp only [emitSeq] at h
+  split at h
+  · cases h
+  · rename_i a st1 ha
+    split at h
+    · cases h
+    · rename_i c' st2 hr
+      simp only [Except.ok.injEq, Prod.mk.injEq] at h
+      obtain ⟨rfl, rfl⟩ := h
+      exact ⟨a, st1, c', ha, hr, rfl⟩
+
+theorem fundVals_snoc (l : List Fund) (t : Fund) : fundVals (l ++ [t]) = fundVals l ++ [.funding t.asset t.parts] := by
+  simp [fundVals]
+
+/-- the sources of a source allotment: each takes its share; the shares wait on the stack under the fundings taken
+so far -/
+theorem allotSources_ok {R : List Resource} {V : List BVal} {env : VEnv} (cx : Ctx R V env) {asset ma : Asset} {pa : Code}
+    (hpa : ∀ m, exec V pa m = .ok (m.push (.asset asset))) {mA : Addr}
+    {items : List (PortionSpec × Source)} {st st' : CState} {i : Nat} {c : Code} (hmt : HasTy st.resources mA .monetary)
+    (hv : visitAllotSources st pa mA items i = .ok (c, st')) (hsub : Sub st' R) (hidx : VarIdxOK st)
+    (hf : ∀ it ∈ items, it.2.frag = true) (hi : i + items.length < 18446744073709551616) :
+    ∀ (m : Machine) (S T : List BVal) (ks : List (Acct × Asset)) (b : Bal) (parts : List Int), T.length = i →
+      parts.length = items.length → BalOK m.balances.accts E b →
+      match evalAllotSources env asset ma items parts b with
+      | .error er => exec V c (m.upd (T ++ (parts.map (fun x => BVal.mon ma x) ++ S)) ks b) = .error er
+      | .ok (ts, b') => BalOK m.balances.accts E b' ∧ (∀ t ∈ ts, PartsIn m.balances.accts t.parts) ∧ ts.length = items.length ∧
+          ∃ ks', exec V c (m.upd (T ++ (parts.map (fun x => BVal.mon ma x) ++ S)) ks b) =
+            .ok (m.upd (fundVals ts.reverse ++ (T ++ S)) ks' b') := by
+  induction items generalizing st i c with
+  | nil =>
+    simp only [visitAllotSources, Except.ok.injEq, Prod.mk.injEq] at hv
+    obtain ⟨rfl, _⟩ := hv
+    intro m S T ks b parts hT hlen hok
+    have : parts = [] := List.eq_nil_of_length_eq_zero (by simpa using hlen)
+    subst this
+    simp only [evalAllotSources]
+    exact ⟨hok, (by intro t ht; cases ht), rfl, ks, rfl⟩
+  | cons it rest ih =>
+    obtain ⟨p, s⟩ := it
+    simp only [visitAllotSources] at hv
+    split at hv
+    · cases hv
+    · rename_i so hso
+      split at hv
+      · cases hv
+      · rename_i c1 st1 h1
+        split at hv
+        · cases hv
+        · rename_i c2 st2 h2
+          simp only [Except.ok.injEq, Prod.mk.injEq] at hv
+          obtain ⟨rfl, rfl⟩ := hv
+          obtain ⟨hs1, hs2⟩ := visitSource_ok hso
+          have eN := Ext.setNeeded so.st so.needed mA hs2 (Or.inr (hs1.hasTy hmt))
+          have e1 := hs1.trans (eN.trans (emitSeq_ext h1))
+          have e2 := visitAllotSources_ext (e1.hasTy hmt) h2
+          have hsub1 : Sub st1 R := hsub.of_ext e2
+          have hsubS : Sub so.st R := hsub1.of_ext (eN.trans (emitSeq_ext h1))
+          obtain ⟨a, stx, c', hal, hes, rfl⟩ := emitSeq_bump_cons h1
+          have hVa : V[a]? = some (.num ((i : Int) + 1)) := allocNum_val cx hal (hsub1.of_ext (emitSeq_ext hes))
+          have hS := source_ok (E := E) cx asset hpa hso hsubS hidx (hf (p, s) (List.mem_cons_self ..))
+          have ihr := ih (e1.hasTy hmt) h2 (e1.varIdxOK hidx) (fun it hit => hf it (List.mem_cons_of_mem _ hit))
+            (by simp only [List.length_cons] at hi; omega)
+          intro m S T ks b parts hT hlen hok
+          cases parts with
+          | nil => simp at hlen
+          | cons q qs =>
+            have hlen' : qs.length = rest.length := by simpa using hlen
+            simp only [evalAllotSources, List.map_cons, List.cons_append]
+            have h1s := hS m (T ++ (.mon ma q :: (qs.map (fun x => BVal.mon ma x) ++ S))) ks b hok
+            cases hsrc : evalSource env asset s b with
+            | error er =>
+              rw [hsrc] at h1s
+              simp only [exec_append, h1s]
+            | ok r0 =>
+              obtain ⟨f, fb, b1⟩ := r0
+              rw [hsrc] at h1s
+              obtain ⟨hfb, hok1, hparts, ks1, hex1⟩ := h1s
+              -- `BUMP (i+1)` brings the share to the top
+              have hbump : step V .bump (m.upd (.num ((i : Int) + 1) :: .funding f.asset f.parts :: (T ++ (.mon ma q :: (qs.map (fun x => BVal.mon ma x) ++ S)))) ks1 b1) =
+                  .ok (m.upd (.mon ma q :: .funding f.asset f.parts :: (T ++ (qs.map (fun x => BVal.mon ma x) ++ S))) ks1 b1) := by
+                have := step_bumpN V m (qs.map (fun x => BVal.mon ma x) ++ S) ks1 b1 (.funding f.asset f.parts :: T) (.mon ma q)
+                  (by simp only [List.length_cons, hT]; simp only [List.length_cons] at hi; omega)
+                simp only [List.length_cons, hT, List.cons_append] at this
+                have hc : ((i + 1 : Nat) : Int) = (i : Int) + 1 := by omega
+                rw [hc] at this
+                exact this
+              have hT1 := takeFromSource_ok (E := E) cx hes hsub1 m (T ++ (qs.map (fun x => BVal.mon ma x) ++ S)) ks1 b1 hok1 f hparts fb hfb ma q
+              simp only
+              cases htk : takeFromSource fb f ma q b1 with
+              | error er =>
+                rw [htk] at hT1
+                simp only [exec_append, hex1, exec_cons, step_apush hVa, push_upd, hbump, hT1]
+              | ok r1 =>
+                obtain ⟨t, b2⟩ := r1
+                rw [htk] at hT1
+                obtain ⟨hok2, hparts2, ks2, hex2⟩ := hT1
+                have hR := ihr m S (.funding t.asset t.parts :: T) ks2 b2 qs (by simp [hT]) hlen' hok2
+                simp only [List.cons_append] at hR
+                simp only
+                cases hrest : evalAllotSources env asset ma rest qs b2 with
+                | error er =>
+                  rw [hrest] at hR
+                  simp only [exec_append, hex1, exec_cons, step_apush hVa, push_upd, hbump, hex2, hR]
+                | ok r2 =>
+                  obtain ⟨ts, b3⟩ := r2
+                  rw [hrest] at hR
+                  obtain ⟨hok3, hparts3, hlen3, ks3, hex3⟩ := hR
+                  refine ⟨hok3, ?_, by simp [hlen3], ks3, ?_⟩
+                  · intro t' ht'
+                    rcases List.mem_cons.mp ht' with rfl | ht'
+                    · exact hparts2
+                    · exact hparts3 t' ht'
+                  · simp only [exec_append, hex1, exec_cons, step_apush hVa, push_upd, hbump, hex2, hex3]
+                    simp [fundVals]
 
 /-- what the code of a statement of the fragment does, in `Spec`'s words -/
 theorem stmt_ok {R : List Resource} {V : List BVal} {env : VEnv} (cx : Ctx R V env) (hp : VPos V) {st st' : CState} {s : Stmt} {c : Code}
@@ -465,7 +586,151 @@ theorem stmt_ok {R : List Resource} {V : List BVal} {env : VEnv} (cx : Ctx R V e
         have hed := visitDestination_ext hdst
         have hes := visitSendSource_ext hsrc
         · cases src with
-          | allot items => cases amt <;> simp [Stmt.frag] at hf
+          | allot items =>
+            cases amt with
+            | all ae => simp [Stmt.frag] at hf
+            | mon e =>
+              simp only [Stmt.frag, Bool.and_eq_true, decide_eq_true_eq, List.all_eq_true] at hf
+              obtain ⟨⟨⟨⟨hfe, hfs⟩, hflen⟩, hfq⟩, hfd⟩ := hf
+              simp only [visitSendSource] at hsrc
+              split at hsrc
+              · cases hsrc
+              · rename_i mA c0 stA hm
+                split at hsrc
+                · cases hsrc
+                · rename_i eo heo
+                  split at hsrc
+                  · cases hsrc
+                  · rename_i ca stB hal
+                    split at hsrc
+                    · cases hsrc
+                    · rename_i cs stC has
+                      split at hsrc
+                      · cases hsrc
+                      · rename_i cf stD hfin
+                        simp only [Except.ok.injEq, Prod.mk.injEq] at hsrc
+                        obtain ⟨rfl, rfl⟩ := hsrc
+                        obtain ⟨heA, tA⟩ := visitTyped_ok hm
+                        have heE := visitExpr_ext heo
+                        have heL := visitAllotment_ext hal
+                        have hmB : HasTy stB.resources mA .monetary := heL.hasTy (heE.hasTy tA)
+                        have heS := visitAllotSources_ext hmB has
+                        have heF := emitSeq_ext hfin
+                        have hsubD : Sub stD R := hsub2.of_ext hed
+                        have hsubC : Sub stC R := hsubD.of_ext heF
+                        have hsubB : Sub stB R := hsubC.of_ext heS
+                        have hsubE : Sub eo.st R := hsubB.of_ext heL
+                        have hsubA : Sub stA R := hsubE.of_ext heE
+                        obtain ⟨_, a0, n0, hla, hVm⟩ := monTyped_ok cx hm hsubA hidx hfe
+                        have hpa := fun mm => exec_pushAsset_mon (V := V) hVm mm
+                        have hX := (expr_ok cx heo hsubE (heA.varIdxOK hidx) hfe).1
+                        have hidxB : VarIdxOK stB := (heA.trans (heE.trans heL)).varIdxOK hidx
+                        have hA := allotment_ok cx hp hal hsubB ((heA.trans heE).varIdxOK hidx)
+                          (fun q hq => hfq q hq)
+                          (by rw [List.length_map]; exact hflen)
+                        have hcf := emitSeq_exec cx hfin hsubD
+                        have hidxT : VarIdxOK stD := hes.varIdxOK hidx
+                        obtain ⟨m0, hm0⟩ : ∃ m0 : Machine, m0 = (⟨[], ⟨accts, keys, F.st.bal⟩, F.st.postings, F.txMeta.map (fun kv => (kv.1, BVal.ofVal kv.2)), F.acctMeta.map (fun x => (x.1, x.2.1, BVal.ofVal x.2.2)), F.prints.map BVal.ofVal⟩ : Machine) := ⟨_, rfl⟩
+                        have hm0u : m0.upd [] keys F.st.bal = m0 := by subst hm0; rfl
+                        have hm0a : m0.balances.accts = accts := by subst hm0; rfl
+                        have hm0p : m0.postings = F.st.postings := by subst hm0; rfl
+                        have hok0 : BalOK m0.balances.accts E F.st.bal := by rw [hm0a]; exact hok
+                        rw [← hm0]
+                        simp only [evalStmt, evalSend]
+                        cases hem : evalMon env e with
+                        | error er =>
+                          simp only [evalMon] at hem
+                          cases hee : evalExpr env e with
+                          | error er' =>
+                            rw [hee] at hX hem
+                            simp only [Except.error.injEq] at hem; subst hem
+                            simp only [exec_append, hX]
+                          | ok v =>
+                            have := typed_val cx hm hsubA hidx hfe hee
+                            obtain ⟨a', n', rfl⟩ := ofVal_bty_mon this
+                            simp [hee] at hem
+                        | ok r =>
+                          obtain ⟨ma, mn⟩ := r
+                          have hee : evalExpr env e = .ok (.mon ma mn) := by
+                            simp only [evalMon] at hem
+                            cases hee : evalExpr env e with
+                            | error er' => simp [hee] at hem
+                            | ok v =>
+                              have := typed_val cx hm hsubA hidx hfe hee
+                              obtain ⟨a', n', rfl⟩ := ofVal_bty_mon this
+                              simp only [hee, Except.ok.injEq, Prod.mk.injEq] at hem
+                              obtain ⟨rfl, rfl⟩ := hem; rfl
+                          rw [hee] at hX
+                          have hX2 : exec V eo.code m0 = .ok (m0.upd [.mon ma mn] keys F.st.bal) := by
+                            rw [hX.2]; subst hm0; rfl
+                          simp only [hla]
+                          cases hrp : resolvePortions env (items.map (·.1)) with
+                          | error er =>
+                            rw [hrp] at hA
+                            simp only [exec_append, hX2, hA]
+                          | ok al =>
+                            rw [hrp] at hA
+                            obtain ⟨al', hrel, hexA⟩ := hA
+                            have hplen : (allocate al mn).length = items.length := by
+                              rw [allocate_length, resolvePortions_length hrp, List.length_map]
+                            have hSrc := allotSources_ok (E := E) (ma := ma) cx hpa hmB has hsubC hidxB (fun it hit => hfs it hit)
+                              (by simpa using hflen) m0 [] [] keys F.st.bal (allocate al mn) rfl hplen hok0
+                            simp only [List.nil_append, List.append_nil] at hSrc
+                            have hpre : exec V (eo.code ++ ca ++ [.alloc]) m0 =
+                                .ok (m0.upd ((allocate al mn).map (fun x => BVal.mon ma x)) keys F.st.bal) := by
+                              simp only [exec_append, hX2, hexA, push_upd, exec, step_alloc, ← allocate_ratsRel hrel, List.append_nil]
+                            have hcode : eo.code ++ ca ++ [.alloc] ++ cs ++ cf ++ c2 = (eo.code ++ ca ++ [.alloc]) ++ (cs ++ (cf ++ c2)) := by
+                              simp only [List.append_assoc]
+                            rw [hcode, exec_append, hpre]
+                            simp only
+                            cases hsrcs : evalAllotSources env a0 ma items (allocate al mn) F.st.bal with
+                            | error er =>
+                              rw [hsrcs] at hSrc
+                              simp only [exec_append, hSrc]
+                            | ok r1 =>
+                              obtain ⟨ts, b1⟩ := r1
+                              rw [hsrcs] at hSrc
+                              obtain ⟨hok1, hparts1, hlen1, ks1, hex1⟩ := hSrc
+                              have hasm := step_assembleN V m0 [] ks1 b1 ts (by rw [hlen1]; exact hflen)
+                              simp only [List.append_nil] at hasm
+                              have hnn : ((items.length : Nat) : Int) = (ts.length : Int) := by rw [hlen1]
+                              simp only
+                              cases has' : assemble ts with
+                              | error er =>
+                                rw [has'] at hasm
+                                simp only [exec_append, hex1, hcf, runEmits, push_upd, hnn, hasm]
+                              | ok f =>
+                                rw [has'] at hasm
+                                have hpf : PartsIn m0.balances.accts f.parts := by
+                                  unfold assemble at has'
+                                  split at has'
+                                  · cases has'
+                                  · split at has'
+                                    · simp only [Except.ok.injEq] at has'; subst has'
+                                      simp only
+                                      have : ∀ (acc : Parts), PartsIn m0.balances.accts acc → ∀ (l : List Fund), (∀ f ∈ l, PartsIn m0.balances.accts f.parts) →
+                                          PartsIn m0.balances.accts (l.foldl (fun acc f => concat acc f.parts) acc) := by
+                                        intro acc hacc l
+                                        induction l generalizing acc with
+                                        | nil => intro _; exact hacc
+                                        | cons g gs ihl =>
+                                          intro hl
+                                          exact ihl _ (concat_partsIn hacc (hl g (List.mem_cons_self ..))) (fun f hf => hl f (List.mem_cons_of_mem _ hf))
+                                      exact this [] (by intro q hq; cases hq) ts hparts1
+                                    · cases has'
+                                have hD := destination_ok (E := E) cx hp hdst hsub2 hidxT hfd m0 [] ks1 b1 hok1 f hpf
+                                rw [hm0p] at hD
+                                simp only
+                                cases hfin' : finishSend env d f ⟨b1, F.st.postings⟩ with
+                                | error er =>
+                                  rw [hfin'] at hD
+                                  simp only [exec_append, hex1, hcf, runEmits, push_upd, hnn, hasm, hD]
+                                | ok st3 =>
+                                  rw [hfin'] at hD
+                                  obtain ⟨hok3, ks3, hex3⟩ := hD
+                                  refine ⟨m0.upd3 [] ks3 st3.bal st3.postings, by simp only [exec_append, hex1, hcf, runEmits, push_upd, hnn, hasm, hex3], ?_⟩
+                                  subst hm0
+                                  exact ⟨rfl, rfl, rfl, rfl, rfl, rfl, rfl, by rw [hm0a] at hok3; exact hok3⟩
           | src sc =>
             cases amt with
             | mon e =>
